@@ -16,7 +16,7 @@ from vlib import harness
 ID = "C10"
 LEVEL = "fault_enumeration"
 RULE = ("a case is (history of 2-5 loky Parallel calls, with/without `with`, n_jobs 2-4) x one fault: victims 1..n_jobs x how "
-        "{SIGKILL, SIGSEGV, os._exit, SIGTERM} x instant {arg_unpickle, task_start, mid_task, task_end, result_pickle, "
+        "{SIGKILL, SIGSEGV, os._exit(3), os._exit(chosen status 0..255), SIGTERM} x instant {arg_unpickle, task_start, mid_task, task_end, result_pickle, "
         "result_send_small, result_send_large, idle_between_calls, next_call_startup, next_call_startup_other_n_jobs (the next call asks for another n_jobs, so the executor is being resized or gracefully replaced when the idle worker dies), executor_replacement / executor_resize (a generator call is running when a second call "
         "with other executor arguments / another n_jobs makes loky shut the executor down gracefully or resize it, and the worker dies while that waits)}; the quick tier enumerates every "
         "instant x how once, the thorough tier crosses them with victims, n_jobs, call position and batch size; "
@@ -54,6 +54,10 @@ def cases(tier, seed):
         for _ in range(8):
             yield mk(rng, i, rng.choice(INSTANTS[:5]), rng.choice(HOWS), victims=rng.choice([2, 3]))
             i += 1
+        for code in (0, 1, 127, 137, 160, 200, 254, 255):
+            # abrupt exits with a chosen status: whatever the number, a worker that vanishes mid-call is a dead worker
+            yield mk(rng, i, rng.choice(["task_start", "mid_task", "task_end"]), f"exit:{code}")
+            i += 1
         for _ in range(10):
             # the window (executor being resized / replaced at the start of the next call) is a few ms wide
             yield mk(rng, i, "next_call_startup_other_n_jobs", "SIGKILL", victims=rng.choice([1, 1, 2]))
@@ -69,6 +73,9 @@ def cases(tier, seed):
                     i += 1
             for _ in range(5):
                 yield mk(rng, i, "next_call_startup_other_n_jobs", "SIGKILL", victims=rng.choice([1, 1, 2]))
+                i += 1
+            for _ in range(4):
+                yield mk(rng, i, rng.choice(["task_start", "mid_task", "task_end", "result_pickle"]), f"exit:{rng.choice([0, 1, 2, 127, 128, 129, 137, 139, 143, 160, 161, 192, 193, 200, 254, 255])}", victims=rng.choice([1, 1, 2]))
                 i += 1
 
 
